@@ -211,6 +211,13 @@ impl Property for C03 {
     fn max_shrink_iters(&self) -> u32 {
         300
     }
+    /// coverage-guided phase: runs per job, set by what one case costs under instrumentation
+    fn fuzz_runs(&self, tier: Tier) -> u64 {
+        match tier {
+            Tier::Quick => 0,
+            Tier::Thorough => 1200,
+        }
+    }
     fn cases(&self, tier: Tier) -> u64 {
         match tier {
             Tier::Quick => 4000,
